@@ -2,8 +2,9 @@
 
 Only the wrapper functions that put description text into a docstring / comment are under contract
 (whole generated files parsing in six languages is out of reach).  Each wrapper is executed symbolically
-on every text of length 0..K with fully symbolic characters (K = 4 for the Python docstring so that runs
-of up to four quotes are covered, K = 3 for the comments); str.replace / splitlines / strip are computed
+on every text of length 0..K with fully symbolic characters (K = 6 for the Python docstring so that runs
+of up to six quotes and a run of four or five quotes followed by another character are covered, plus 1..5 free
+characters at either end of a 66-letter text for the multi-line form; K = 3 for the comments); str.replace / splitlines / strip are computed
 exactly on such texts.  The step to arbitrary lengths is the same locality argument as for C19.
 """
 import z3
@@ -31,14 +32,36 @@ def sym_text(k: int):
     return build
 
 
+def sym_text_padded(k: int, pad: str, sym_first: bool):
+    """k symbolic characters before / after a fixed run of letters (texts beyond the one-line limit of 70)."""
+    inner = sym_text(k)
+
+    def build(it, fr):
+        v = inner(it, fr)
+        return VStr(list(v.parts) + [pad]) if sym_first else VStr([pad] + list(v.parts))
+    return build
+
+
 UNITS = []
-for k in range(0, 5):
+# lengths 0..6: every run of up to six quotes, a run of four or five followed by another character, two adjacent triples
+for k in range(0, 7):
     UNITS.append(Contract(
         "aas_core_codegen.python.description:docstring", ["C20"], specs=S, name=f"python.docstring[len={k}]",
         args={"text": sym_text(k)}, requires=["0 not in [ord(c) for c in text]"],
         ensures=[("one-string-literal-with-the-text", "py_triple(result) == [ord(c) for c in text]")],
         twins=[("not-a-literal", "py_triple(result) is None")],
         use_as_callee=False, max_paths=20000, replay="native.c20:replay_docstring"))
+# the multi-line form (texts of 64 characters and more): hostile characters at the start and at the end of the text
+for k in range(1, 6):
+    for sym_first in (True, False):
+        UNITS.append(Contract(
+            "aas_core_codegen.python.description:docstring", ["C20"], specs=S,
+            name=f"python.docstring[multi-line, {k} free characters at the {'start' if sym_first else 'end'}]",
+            args={"text": sym_text_padded(k, "x" * 66, sym_first)}, requires=["0 not in [ord(c) for c in text]"],
+            ensures=[("one-string-literal-with-the-text-on-its-own-lines",
+                      "py_triple(result) == [10] + [ord(c) for c in text] + [10]")],
+            twins=[("not-a-literal", "py_triple(result) is None")],
+            use_as_callee=False, max_paths=20000, replay="native.c20:replay_docstring"))
 
 for tgt, kind, prefix in (("java", "block", ""), ("typescript", "block", ""), ("cpp", "line", "///"),
                           ("golang", "line", "//"), ("python", "line", "#:")):
